@@ -13,12 +13,6 @@ Proof.
   destruct (p a) eqn:Ep; [rewrite (H a Ep); cbn; lia | destruct (q a); cbn; lia].
 Qed.
 
-Lemma uncol_incl fs c c' : incl c c' -> (uncol fs c' <= uncol fs c)%nat.
-Proof.
-  intro H. apply filter_len_mono. intros x Hx. apply negb_true_iff in Hx. apply negb_true_iff.
-  apply mem_false. apply mem_false in Hx. intro Hin. apply Hx. auto.
-Abort.
-
 Section Cycles.
   Variable fs : list fraginfo.
 
